@@ -207,6 +207,10 @@ class C15(flow.Spec):
         steps = []
         for st in obs.split(" # "):
             f = dict(re.findall(r"(\w+)=(\S*)", st))
+            if "rows" in f:
+                # an integer written into a TEXT column is stored as text (type affinity, SQLite's
+                # business): the harness prints it as t<digits>, the model as <digits>
+                f["rows"] = re.sub(r"(?<![A-Za-z0-9])t(\d+)", r"\1", f["rows"])
             steps.append("|".join("%s=%s" % (k, f.get(k, "")) for k in ("ok", "w", "mem", "db", "rows") if k in f))
         return " # ".join(steps)
 
